@@ -132,10 +132,12 @@ def gstr(s, style=None):
     q = '"'
     if style is not None:
         q = style.quote(s)
-    if q == '"' and '"' in s and "'" not in s:
-        q = "'"
-    elif q == "'" and "'" in s and '"' not in s:
-        q = '"'
+    if not getattr(style, "escape_quotes", False):
+        # canonical spelling: pick the quote character the string does not contain (no escapes needed)
+        if q == '"' and '"' in s and "'" not in s:
+            q = "'"
+        elif q == "'" and "'" in s and '"' not in s:
+            q = '"'
     return q + s.replace(q, "\\" + q) + q
 
 
@@ -276,6 +278,8 @@ def pquery(q, style=CANON, depth=0):
             out.append("[%s]" % gstr(p[1], style))
         elif t == "var":
             out.append("%" + p[1])
+        elif t == "varkey":
+            out.append(".%" + p[1])      # key interpolation: the key name(s) come from a variable
         elif t == "this":
             out.append(style.kw("this"))
         elif t == "all":
